@@ -858,4 +858,34 @@ def unlockedRead (db : Db) (t : Table) (a1 a2 : Nat) (between : List DbOp) : RdO
     | .error e => .error e
     | .ok v2 => .ok [v1, v2]
 
+/-! ## Disjoint writers (`ffi atomic … w`)
+
+  Besides the whole-block transactions every transaction thread increments a counter register of
+  its own inside its transactions (get, then update to value + 1), and a client writes yet another
+  register through the write handler.  Under the lock-scope hypothesis every one of these writers
+  is a lock holder, so the final database is that of a serial execution in which each transaction
+  is applied exactly once: nothing an acknowledged writer did is undone by another one. -/
+
+/-- the point an operation touches -/
+def DbOp.point : DbOp → Table × Nat
+  | .add t i _ | .update t i _ | .delete t i | .get t i => (t, i)
+
+/-- the calls of one increment of the counter register `i` as made on database `db`: get, then
+    update to the value read + 1 (16-bit wrap-around) -/
+def incrOps (db : Db) (i : Nat) : List DbOp :=
+  match db.find .holding i with
+  | some v => [.get .holding i, .update .holding i ((v + 1) % 65536)]
+  | none => [.get .holding i]
+
+/-- one increment transaction -/
+def Db.incr (db : Db) (i : Nat) : Db := (db.run (incrOps db i)).1
+
+/-- EXPECTED result line of `ffi atomic`: every read is whole (`uniform`); a case with flags also
+    reports the number of torn reads and of lost updates (counter increments and acknowledged
+    client writes that are not reflected), both 0, and that every actor did some work -/
+def atomicExpected (flags : Option String) : String :=
+  match flags with
+  | none => "uniform"
+  | some _ => "uniform torn=0 lost=0 work=ok"
+
 end Rodbus.Ffi
